@@ -43,10 +43,11 @@ func main() {
 		}
 		run.Finish()
 	}
-	if !run.Fork(16, "GOMAXPROCS=1") {
+	if _, _, isWorker := run.Worker(); isWorker {
 		runConcurrent(run)
 		run.Finish()
 	}
+	// sequential part first (cheap, and it must never be starved by the concurrent part's budget)
 	var wg sync.WaitGroup
 	sem := make(chan struct{}, 16)
 	for _, p := range probs {
@@ -63,6 +64,7 @@ func main() {
 		}()
 	}
 	wg.Wait()
+	run.Fork(16, "GOMAXPROCS=1")
 	run.Set("seq_depth_bound", int64(depth))
 	run.RacePass("--tier", string(run.Tier))
 	run.Set("traces_validated_against_impl", run.Get("transitions"))
